@@ -194,7 +194,7 @@ def _build(t, xs, flags=None):
         v = t[1]
         if isinstance(v, (int, float)):
             return float(v)
-        return cvx_col(v)
+        return cvx_col(v, sparse=(len(t) > 2 and t[2] == "sp"))
     if op == "pos":
         return +build(t[1], xs, flags)
     if op == "neg":
@@ -298,7 +298,17 @@ def gen(draw, lens, L, curv, depth):
         return draw(gen(lens, L, curv, 0))
     if k == "const":
         cst = ["const", dyl(draw, L)] if (L > 1 or draw(st.booleans())) else ["const", draw(st.sampled_from(DY))]
-        return ["add", draw(gen(lens, L, curv, d)), cst]
+        if isinstance(cst[1], list) and draw(st.booleans()):
+            # "The constant terms in the sum can be ... dense or sparse 'd' matrices with one column" (modeling.rst):
+            # zeros in the vector are structural zeros of the sparse column, so its nonzero count differs from its length
+            cst.append("sp")
+        form = draw(st.sampled_from(["add", "add", "radd", "sub", "rsub", "iadd", "isub"]))
+        if form == "rsub":
+            return ["sub", cst, draw(gen(lens, L, flip(curv), d))]
+        f = draw(gen(lens, L, curv, d))
+        if form == "radd":
+            return ["add", cst, f]
+        return [form, f, cst]
     if k in ("add", "iadd"):
         a = draw(gen(lens, L, curv, d))
         b = draw(gen(lens, other, curv, d))
@@ -308,7 +318,7 @@ def gen(draw, lens, L, curv, depth):
     if k in ("sub", "isub"):
         return [k, draw(gen(lens, L, curv, d)), draw(gen(lens, other, flip(curv), d))]
     if k in ("smul", "mulr", "imul", "div"):
-        a = draw(st.sampled_from(SCAL))
+        a = draw(st.sampled_from(SCAL if k == "div" else SCAL + [0.0]))
         inner = draw(gen(lens, L, flip(curv) if a < 0 else curv, d))
         if k == "smul":
             return ["smul", a, inner]
